@@ -93,16 +93,19 @@ class Eval:
         f = self.f
         b = f.blocks[0]
         pred = None
-        visited = set()
-        for _ in range(max_blocks):
-            if b.idx in visited:
-                raise AnalysisBroken("%s has a loop on the evaluated path: not a closed-form expression" % f.name)
-            visited.add(b.idx)
+        visited = {}
+        for _ in range(max_blocks * 20):
+            # a counted loop over the (finite) parameter domain is unrolled; anything longer is not a closed form
+            visited[b.idx] = visited.get(b.idx, 0) + 1
+            if visited[b.idx] > 70:
+                raise AnalysisBroken("%s has an unbounded loop on the evaluated path: not a closed-form expression" % f.name)
+            newv = {}
             for p in b.phis():
                 for o, pb in zip(p.ops, p.d["inc"]):
                     if pb == pred:
-                        self.vals[p.id] = self.val(o)
+                        newv[p.id] = self.val(o)
                         break
+            self.vals.update(newv)
             for i in b.insts:
                 if i.op == "phi":
                     continue
@@ -188,6 +191,13 @@ class Eval:
                 return None
             md = self.models.get(cal)
             if md is None:
+                # a defined helper that takes and returns scalars and touches no memory is part of the expression tree: evaluate it in place
+                g = self.m.functions.get(cal)
+                if g is not None and not g.decl and "readnone" in (g.attrs or []) and not any(a["type"].endswith("*") for a in g.args) and getattr(self, "depth", 0) < 8:
+                    sub = Eval(self.m, g, [self.val(o) for o in i.ops[:len(g.args)]], self.models)
+                    sub.depth = getattr(self, "depth", 0) + 1
+                    self.vals[i.id] = sub.run()
+                    return None
                 raise AnalysisBroken("%s calls %s, for which the closed-form instance has no model (the value is not the documented expression tree)" % (self.f.name, cal))
             argv = [self.val(o) if o[0] != "i" or self.f.insts[o[1]].type[-1] != "*" else self.ptr_key(o) for o in i.ops]
             argv = [self.ptr_key(o) if (o[0] == "a" and self.f.args[o[1]]["type"].endswith("*")) else v for o, v in zip(i.ops, argv)]
